@@ -675,7 +675,14 @@ func pUInt64Val(b []byte) (n uint64, err ErrorHdr) {
 			err = ErrHdrValNotNumber
 			return
 		}
-		n = n*10 + uint64(c-'0')
+		d := uint64(c - '0')
+		if n > (^uint64(0)-d)/10 {
+			// does not fit: saturate
+			n = ^uint64(0)
+			err = ErrHdrNumTooBig
+			return
+		}
+		n = n*10 + d
 	}
 
 	return
